@@ -341,6 +341,7 @@ func runCheck(id, tier, only string, keep bool) int {
 	}
 	// builds
 	overlays := map[string]string{}
+	overlayErr := map[string]error{}
 	bins := map[buildKey]string{}
 	var bmu sync.Mutex
 	var keys []buildKey
@@ -354,14 +355,21 @@ func runCheck(id, tier, only string, keep bool) int {
 		if _, ok := overlays[j.Instr]; !ok {
 			ov, err := makeOverlay(work, j.Instr)
 			if err != nil {
-				return fatal(2, "overlay: %v", err)
+				// e.g. INSTRUMENTER-UNSUPPORTED for one profile: the jobs that need it fail, the others
+				// (plain and -race binaries) still run and may decide
+				overlayErr[j.Instr] = err
+				ov = ""
 			}
 			overlays[j.Instr] = ov
 		}
 	}
 	var bwg sync.WaitGroup
-	var berr error
+	buildErr := map[buildKey]error{}
 	for _, k := range keys {
+		if err := overlayErr[k.instr]; err != nil {
+			buildErr[k] = fmt.Errorf("overlay: %v", err)
+			continue
+		}
 		bwg.Add(1)
 		go func(k buildKey) {
 			defer bwg.Done()
@@ -369,14 +377,17 @@ func runCheck(id, tier, only string, keep bool) int {
 			bmu.Lock()
 			defer bmu.Unlock()
 			if err != nil {
-				berr = err
+				buildErr[k] = err
+				return
 			}
 			bins[k] = bin
 		}(k)
 	}
 	bwg.Wait()
-	if berr != nil {
-		return fatal(2, "%v", berr)
+	if len(buildErr) == len(keys) && len(keys) > 0 {
+		for _, err := range buildErr {
+			return fatal(2, "%v", err)
+		}
 	}
 	buildS := time.Since(start).Seconds()
 
@@ -422,6 +433,14 @@ func runCheck(id, tier, only string, keep bool) int {
 			defer wg.Done()
 			defer func() { <-sem }()
 			j := plan.Jobs[u.ji]
+			if err := buildErr[buildKey{j.Pkg, j.Instr, j.Race}]; err != nil {
+				mu.Lock()
+				if u.shard == 0 {
+					results[u.ji].errs = append(results[u.ji].errs, fmt.Sprintf("%s: binary not built: %v", j.Harness, err))
+				}
+				mu.Unlock()
+				return
+			}
 			out := filepath.Join(work, fmt.Sprintf("out_%d_%d.json", u.ji, u.shard))
 			dl := j.DeadlineS
 			if dl == 0 {
